@@ -111,3 +111,34 @@ PROPS["C03"] = dict(
     trusted=COMMON_TRUST + ["MPI transport (messages delivered unmodified, per-pair FIFO)"],
     assumptions=["message arrival order is a parameter of the model; results are compared after keying send messages by peer"],
 )
+
+
+def c04_configs(tier, seed):
+    cfgs = []
+    # (np, PPN, ordering); ragged last nodes (PPN not dividing np) are separate: known finding
+    quick = [(2, 1, 1), (2, 2, 1), (4, 2, 0), (4, 2, 1), (4, 2, 2), (6, 2, 1), (6, 3, 2), (4, 4, 1), (3, 2, 1)]
+    thorough = [(n, p, o) for n in (2, 3, 4, 6, 8, 9, 12, 16) for p in (1, 2, 3, 4, 8, 16) if p <= n and n % p == 0 for o in (0, 1, 2)]
+    thorough += [(3, 2, 1), (5, 2, 0), (5, 3, 2), (7, 4, 1)]
+    for n, ppn, o in nps(tier, quick, thorough):
+        env = {"PPN": ppn, "RAPtor_MPICH_RANK_REORDER_METHOD": o}
+        ragged = n % ppn != 0 and n > ppn
+        for part in ("cert", "diff"):
+            c = {"tag": f"h_c04-{part}-np{n}-ppn{ppn}-ord{o}", "harness": "h_c04", "np": n, "env": env, "args": [part]}
+            if ragged:
+                c["timeout"] = 40
+            cfgs.append(c)
+    return cfgs
+
+
+PROPS["C04"] = dict(
+    module="RaptorModel.Props.C04",
+    harnesses=["h_c04"],
+    configs=c04_configs,
+    rule=("(np, PPN, ordering) grid incl. single node, PPN=1, all three orderings; per configuration random layouts/off-process sets; the four "
+          "sub-packages of real TAPComm objects (3-step, 2-step, derived by column filtering) are dumped and the Lean certificate (consistency + "
+          "identity payload routed to the requested indices) is evaluated; differential tap off/on for mult, mult_T, residual, mult_append, "
+          "SpGEMM, transpose SpGEMM, AMG setup+solve. Non-trivial = some rank has an off-process index / non-zero result."),
+    trusted=COMMON_TRUST + ["MPI transport", "the construction in tap_comm.cpp is validated per dumped instance (certificate), not proved for all inputs",
+                            "reverse exchange / sparse-row exchange of the node-aware package: differential only (C03 harness)"],
+    assumptions=["AMG residual histories compared with relative tolerance 1e-8 (reassociation)"],
+)
